@@ -59,6 +59,7 @@ type vC04Query struct {
 }
 
 func (s *vC04Sys) Reset() {
+	vResetGlobals()
 	if s.docs == nil {
 		s.docs = vC04Docs
 	}
